@@ -13,6 +13,10 @@ import os, math, json
 from fractions import Fraction
 import vlib
 
+# point values beyond Locate.v (magnetics static / harmonic / axisymmetric, exterior regions, k(T)): PointVals.v, theorems in
+# Properties_C12_pointvalues.v, harness h_pv.cpp (props/xpv.py)
+EXTENSIONS = ["xpv"]
+EXTRA_PROPERTY_FILES = ["C12_pointvalues"]
 LEVEL = "proof"
 COQ_MODULES = ["Locate"]
 ASSUMPTIONS = [
@@ -279,6 +283,8 @@ def squash(t):
 
 
 def regen(ctx):
+    from props import xpv
+    xpv.regen(ctx)            # anchors and source variants of the point-value model (PointVals.v)
     """No generated Coq text; checks the anchors and finds out which InTriangleTest HPProc has."""
     import re
     missing = []
@@ -872,7 +878,8 @@ def correspond(ctx):
     cov["values_compared"] = tot
     cov["bit_identical"] = nb
     ctx.res.notes += stats["notes"]
-    return dis
+    from props import ext as extmod
+    return list(dis) + extmod.run(ctx, EXTENSIONS)
 
 
 def replay_case(ctx):
